@@ -189,6 +189,7 @@ def hopo_state(pi: int, R: int, prev_tick: int, gap: int, tap: bool, forced: boo
 # ---------------------------------------------------------------------------------------------
 M = H.part("VF_M", 2)
 FIRST_IDX = H.part("VF_FIRST", -1)   # partition: index of the first datum (-1: symbolic)
+SECOND_IDX = H.part("VF_SECOND", -1)
 
 
 def _sus_pre(M, idx, sus):
@@ -199,6 +200,8 @@ def _sus_pre(M, idx, sus):
         if idx[k] != 0 or sus[k] != 0:
             return False
     if FIRST_IDX >= 0 and idx[0] != FIRST_IDX:
+        return False
+    if SECOND_IDX >= 0 and M >= 2 and idx[1] != SECOND_IDX:
         return False
     lanes = 0
     opens = 0
@@ -393,9 +396,6 @@ def grouping_loop(t0: int, t1: int, t2: int, t3: int, t4: int, t5: int) -> bool:
 # ---------------------------------------------------------------------------------------------
 # NoteEvent.from_parsed_data dataflow (C01 obl.4, C03 obl.3, C04 obl.3, C05 obl.3, C11 obl.3)
 # ---------------------------------------------------------------------------------------------
-SECOND_IDX = H.part("VF_SECOND", -1)
-
-
 class RecTempo:
     """Duck-typed tempo map: records queries, answers from a pool of symbolic values (S5)."""
 
